@@ -26,7 +26,7 @@ EXPLANATION = (
     "probe frames, dtype string aliases resolving at run time."
 )
 LEVEL_RULE = "one obligation per (attribute, hop) / template slot / dictionary key found in the current tree"
-FLOORS = {"R1": 90, "R2": 14, "R3": 20, "R4": 3, "R5": 5, "R6": 3, "R7": 3, "R8": 1, "R9": 1, "R10": 1}
+FLOORS = {"R1": 90, "R2": 14, "R3": 20, "R4": 3, "R5": 5, "R6": 3, "R7": 3, "R8": 1, "R9": 1, "R10": 1, "R12": 2}
 
 IO = "pandera/io/pandas_io.py"
 STATS = "pandera/schema_statistics/pandas.py"
@@ -513,6 +513,37 @@ def r11_key_filters(ctx, ix=None, mods=None):
     ctx.stats["attribute_key_filters"] = n
 
 
+def r12_dtype_entries_are_strings(ctx):
+    """YAML and JSON carry a dtype as its string alias.  Every `dtype` entry of a mapping returned by a serialiser is
+    therefore rendered with str() (or the alias helper); a raw DataType object reaches the dumper as an unserialisable
+    object and to_yaml / to_json raise instead of writing the schema (DataFrameSchema(..., dtype=int))."""
+    from ..util import Expander
+    io = ctx.ix.module(IO)
+    n = 0
+    for f in io.all_functions:
+        if not (f.name.startswith("serialize") or f.name.startswith("_serialize")):
+            continue
+        ex = Expander(f.node)
+        for d in _returned_dicts(f):
+            for k, v in zip(d.keys, d.values):
+                if not (isinstance(k, ast.Constant) and k.value == "dtype"):
+                    continue
+                n += 1
+                exprs = ex.closure(v)
+                rendered = any(isinstance(x, ast.Call) and ((isinstance(x.func, ast.Name) and x.func.id in ("str", "repr", "_get_dtype_string_alias"))
+                                                            or (isinstance(x.func, ast.Attribute) and x.func.attr in ("__str__", "__repr__")))
+                               for e in exprs for x in ast.walk(e))
+                const_none = isinstance(v, ast.Constant) and v.value is None
+                ok = rendered or const_none
+                ctx.ob("R12", f, f"{f.name}: the `dtype` entry is written as a string", ok,
+                       "rendered with str()" if ok else
+                       f"`'dtype': {txt(v)}` hands the DataType object itself to the YAML / JSON dumper: DataFrameSchema({{...}}, dtype=int).to_yaml() raises "
+                       "RepresenterError and to_json() TypeError (to_script renders it through the alias helper)", f.loc(v))
+    ctx.stats["serialised_dtype_entries"] = n
+    if n < 2:
+        raise AnalysisError(f"serialisers: expected the component and the dataframe-level dtype entries, found {n}")
+
+
 def run(ctx):
     from ..defassign import check_modules
     check_modules(ctx, "R10", ('pandera/io/pandas_io.py', 'pandera/schema_statistics/pandas.py'), "escapes serialisation: the round trip is not even attempted")
@@ -520,6 +551,7 @@ def run(ctx):
     r8_dtype_alias_lossless(ctx)
     r9_script_imports(ctx)
     r11_key_filters(ctx)
+    r12_dtype_entries_are_strings(ctx)
     ix = ctx.ix
     io = ix.module(IO)
     st = ix.module(STATS)
@@ -597,7 +629,10 @@ def run(ctx):
     skeys = _dict_keys(sd[0])
     for a in A_SCHEMA:
         v = skeys.get(a)
-        ok = isinstance(v, ast.Attribute) and v.attr == a
+        # the value written under the key is (a rendering of) the attribute of the same name and of nothing else
+        attrs = {x.attr for x in ast.walk(v) if isinstance(x, ast.Attribute) and isinstance(x.value, ast.Name)
+                 and x.value.id == ser.positional[0]} if v is not None else set()
+        ok = attrs == {a}
         ctx.ob("R1", ser, f"schema attribute {a} -> serialize_schema", ok,
                "written from the same attribute" if ok else
                (f"key {a!r} missing" if v is None else f"key {a!r} reads `{txt(v)}`"))
